@@ -111,7 +111,9 @@ HistChecks(ln, e) ==
    \* C02 (btls): a send that reports EAGAIN may leave at most ONE partly written TLS record behind (OpenSSL's captured
    \* record, the recorded finding btls_capture); complete records of the refused buffer on the wire are bytes of a
    \* failed call in the stream
-   Chk(~(isS /\ tp = "btls" /\ ln.ret = -1 /\ ln.err = EAGAIN) \/ ln.k[1] <= TlsRecMax + 512, "C02.refused_written", TlsRecMax + 512, ln.k[1]),
+   \* (judged only when no record was captured before this call: what OpenSSL does when a captured record is retried with
+   \* another buffer belongs to the recorded finding)
+   Chk(~(isS /\ tp = "btls" /\ ln.ret = -1 /\ ln.err = EAGAIN /\ ~h.wref) \/ ln.k[1] <= TlsRecMax + 512, "C02.refused_written", TlsRecMax + 512, ln.k[1]),
    \* C07: never an oversized or empty delivery
    Chk(~(isR /\ msgT) \/ ln.ret <= MaxMsg, "C07.oversize", MaxMsg, ln.ret),
    \* C06: terminal conditions stick
